@@ -20,6 +20,9 @@
 #include <utility>
 #include <vector>
 
+// virtual clock (milliseconds); also read by the engines' model of std::chrono::system_clock/steady_clock::now()
+extern "C" { inline int64_t vk_now_ms = 0; }
+
 namespace vk {
 namespace asio = boost::asio;
 using error_code = boost::system::error_code;
@@ -66,19 +69,16 @@ struct sock_rec {
   int id = -1; bool open = false; bool connected = false; bool shut = false; int conn_epoch = -1;
   asio::any_completion_handler<void(error_code)> h_connect;
   asio::any_completion_handler<void(error_code, std::size_t)> h_read; char* rbuf = nullptr; std::size_t rcap = 0;
-  asio::any_completion_handler<void(error_code, std::size_t)> h_write; std::size_t wsize = 0; std::size_t wlog_pos = 0;
+  asio::any_completion_handler<void(error_code, std::size_t)> h_write; std::string wdata; int writes = 0;
 };
 struct resolver_rec { asio::any_completion_handler<void(error_code, int)> h; std::string host, port; int calls = 0; };
 
 struct world_t {
   node* q_head = nullptr; node** q_tail = &q_head; int q_len = 0;
   context ctx;
-  int64_t now_ms = 0;
   std::vector<timer_rec*> timers;
   std::vector<sock_rec*> socks;
   std::vector<resolver_rec*> resolvers;
-  std::string wire;            // every byte handed to async_write_some, in order, over all connections
-  std::vector<std::pair<int, std::size_t>> wire_marks;   // (socket id, offset in wire) for each write_some
   int connect_attempts = 0; int overlapping_connects = 0; int writes_started = 0;
   int handlers_run = 0; int depth = 0;   // depth > 0 while a handler or an API call is executing
 };
@@ -120,7 +120,7 @@ inline bool timer_can_fire(const timer_rec* t) {
 }
 inline void timer_fire(timer_rec* t) {
   world_t& w = world();
-  if (t->deadline_ms > w.now_ms) w.now_ms = t->deadline_ms;
+  if (t->deadline_ms > vk_now_ms) vk_now_ms = t->deadline_ms;
   t->armed = false;
   post_completion(std::move(t->h), error_code{});
 }
